@@ -14,6 +14,8 @@ THEOREMS = [
     "RedunModel.C06.submitted_key_covered",
     "RedunModel.C06.registration_sound",
     "RedunModel.C06.collapsed_twin_is_quiet",
+    "RedunModel.C06.expr_once",
+    "RedunModel.C06.expr_started_at_most_once",
     "RedunModel.SchedCore.reachable_cse",
     "RedunModel.SchedCore.reachable_inv",
 ]
@@ -31,8 +33,12 @@ RULE = ("job-tree programs with duplicated calls (same task, same arguments, sam
 LEVEL_TEXT = ("Lean 4 proof (all programs, all schedules) that for every cache key at most one opted-in job is ever handed to an executor, "
               "with the covering invariant (registered as pending or recorded for the same-execution lookup), that registrations are "
               "key-exact and provenance-recording, and that collapsed duplicates never run; tied to the scheduler by event-by-event trace "
-              "comparison and a submission-count oracle. PARTIAL: 'each distinct expression under one parent is evaluated once' "
-              "(_pending_expr) and 'a duplicate receives the same value' are covered by the oracle/correspondence, not by a theorem.")
+              "comparison and a submission-count oracle; expr_once / expr_started_at_most_once: for every history of _evaluate_apply "
+              "requests and job finalizations (a finalized job evaluates nothing) an equal expression under the same parent is handed the "
+              "earlier evaluation and at most one evaluation is started per (parent, expression hash) - Model/ExprMemo, tied to the "
+              "scheduler by replaying the observed request history (harness-side wrapper of _evaluate_apply/_finalize_job, Job creations "
+              "counted) and by the oracle 'one Job per (parent, expression hash)'. PARTIAL: 'a duplicate receives the same value' is "
+              "covered by the reference-value oracle and the correspondence, not by a theorem (the model carries no values).")
 LEVEL_NOTE = ("mirrors /repo after fixes fa14a32 (own-registration pop, setdefault) and d273f7b (only provenance-recording jobs register); "
               "context-free backend lookups matching context-bearing entries (C05 known finding) make the model serve more hits, never more submissions")
 TECHNIQUE = base.TECHNIQUE
@@ -52,6 +58,11 @@ CORPUS = [
       (False, [], None)], {}),
     ([(False, [dict(callee=1), dict(callee=2), dict(callee=2)], None), (False, [dict(callee=3), dict(callee=3)], None),
       (False, [dict(callee=1, scope="CSE")], None), (False, [], None)], {}),
+    # the same expression twice in one body (one Job), next to an equal call through another expression (a twin)
+    ([(False, [dict(callee=1), dict(callee=1, same=True), dict(callee=1), dict(callee=2)], None), (False, [dict(callee=2), dict(callee=2, same=True)], None),
+      (False, [], None)], {}),
+    ([(False, [dict(callee=1, scope="NONE"), dict(callee=1, same=True), dict(callee=2), dict(callee=2, same=True)], None),
+      (True, [], None), (False, [dict(callee=3), dict(callee=3, same=True)], ["r0"]), (False, [], ["r0"])], {"r0": 1}),
     # same call under two contexts and without
     ([(False, [dict(callee=1, ctx={"a": 1}), dict(callee=1), dict(callee=1, ctx={"a": 1})], None), (False, [dict(callee=2)], None),
       (False, [], None, True)], {}),
@@ -94,6 +105,12 @@ def one_run(ctx, p, decisions=None, rng=None, items=None, tag="random", p_comple
                           case=case, expected="<= 1 submission per (task, eval_hash, context_hash)",
                           actual={"task": k[0], "eval_hash": k[1][:8], "context_hash": (k[2] or "")[:8], "submissions": n},
                           kind="schedule")
+    for (_par, eh), jobs in ctl.expr_jobs.items():
+        if len(jobs) > 1:
+            ctx.violation("C06-expression-evaluated-twice-under-one-parent",
+                          "one parent job created %d jobs for one expression (hash %s): _pending_expr did not return the pending evaluation"
+                          % (len(jobs), eh[:8]), case=case, expected=1, actual=len(jobs), kind="schedule")
+            break
     if st == "ok":
         try:
             exp = p.expected(0)
@@ -104,7 +121,26 @@ def one_run(ctx, p, decisions=None, rng=None, items=None, tag="random", p_comple
             ctx.violation(sig, "run returned a value different from the reference evaluation (a duplicate received another call's result)",
                           case=case, expected=repr(exp)[:300], actual=repr(payload)[:300], kind="schedule")
     items.append((p, ctl, False, None, case))
+    if any(it[0] == "e" for it in ctl.memo_log):
+        _memo.append((ctl.memo_log, case))
     return ctl
+
+
+_memo = []
+
+
+def flush_memo(ctx):
+    """`_pending_expr` histories of the real runs against Model/ExprMemo: the same requests start an evaluation in both"""
+    if not _memo:
+        return
+    reqs = [sc.memo_request(log) for log, _ in _memo]
+    outs = ctx.model("Sched", [r for r, _ in reqs])
+    for (log, case), (req, flags), out in zip(_memo, reqs, outs):
+        got = [x.endswith(":T") for x in out.split()]
+        if got != flags:
+            ctx.mismatch("the same _evaluate_apply requests start different evaluations in model and scheduler (_pending_expr)",
+                         dict(case, memo=req[:2000]), out[:400], " ".join("T" if f else "F" for f in flags)[:400])
+    del _memo[:]
 
 
 _opt_cache = {}
@@ -125,8 +161,8 @@ def c05_signature(p, got, exp):
         n_head = 3 if d.reads_ctx else 1
         if not isinstance(g, list) or g[:n_head] != e[:n_head] or len(g) != len(e):
             return i
-        for c, gg, ee in zip(sp["children"], g[n_head:], e[n_head:]):
-            r = walk(c, gg, ee)
+        for k, gg, ee in zip(sp.get("site_child", []), g[n_head:], e[n_head:]):
+            r = walk(sp["children"][k], gg, ee)
             if r is not None:
                 return r
         return None
@@ -150,14 +186,16 @@ def run(ctx):
         base.flush(ctx, items)
     for i in range(ctx.n(45, 700)):
         wide = i % 3 == 2
-        p = sc.gen_wide(rng, p_dup=0.6) if wide else sc.gen_program(rng, p_dup=0.8, p_limits=0.35, allow_ctx=False)
+        p = sc.gen_wide(rng, p_dup=0.6) if wide else sc.gen_program(rng, p_dup=0.8, p_limits=0.35, allow_ctx=False, p_same=0.2 if i % 2 else 0.0)
         for k in range(3 if wide else 2):
             one_run(ctx, p, rng=random.Random(rng.random()), items=items, tag="wide-duplicates" if wide else "random",
                     p_complete=0.5 if wide else 0.3)
         if len(items) >= 50:
             base.flush(ctx, items)
+            flush_memo(ctx)
             _opt_cache.clear()
     base.flush(ctx, items)
+    flush_memo(ctx)
 
 
 def replay(ctx, case):
